@@ -51,6 +51,10 @@ var extraArgDocs = []argDoc{
 var subscriptionDocs = []argDoc{
 	{`subscription {f(k: 1)}`, []map[string]interface{}{{}}},
 	{`subscription {a: plain}`, []map[string]interface{}{{}}},
+	// aliased root fields whose resolver has no outcome for these arguments: the error's path is the alias
+	{`subscription {a: f(k: 3)}`, []map[string]interface{}{{}}},
+	{`subscription {z: g(k: 7)}`, []map[string]interface{}{{}}},
+	{`subscription($n: Int) {b: o(id: "zz") {h(k: $n)}}`, []map[string]interface{}{{}, {"n": 1}}},
 	{`subscription($n: Int) {f(k: $n)}`, []map[string]interface{}{{}, {"n": 1}, {"n": 2}, {"n": nil}, {"n": "1"}, {"n": 1.5}}},
 	{`subscription($n: Int!) {g(k: $n)}`, []map[string]interface{}{{}, {"n": 1}, {"n": 2}, {"n": nil}}},
 	{`subscription($n: Int = 2) {g(k: $n)}`, []map[string]interface{}{{}, {"n": 1}, {"n": nil}}},
